@@ -5,7 +5,7 @@ use crate::compression::flags;
 use crate::security::*;
 use crate::tables::{BlockEntry, HashEntry, HashTable};
 use crate::*;
-use crate::crypto::{hash_string, hash_type};
+use crate::crypto::*;
 use byteorder::{LittleEndian, ReadBytesExt};
 use std::io::Cursor;
 
@@ -79,7 +79,7 @@ fn u03_4_result_exact_size_ok() {
 }
 
 // ------------------------------------------------------------------------------------ U02.1
-// @harness unit=U02.1 props=C02 kind=complete timeout=120 target="published MPQ constants"
+// @harness unit=U02.1 props=C02 kind=complete timeout=120 target="published MPQ constants" oracle=mpq_interop
 #[kani::proof]
 #[kani::unwind(4)]
 #[kani::stub(alloc::fmt::format, stub_format)]
@@ -360,7 +360,7 @@ fn u08_3_chain_parallel_sort_stable() {
 }
 
 // ------------------------------------------------------------------------------------ U02.3 table keys and file keys (E11 blocks)
-// @harness unit=U02.3 props=C02,C01 kind=complete timeout=300 target="builder.rs write_hash_table/write_block_table, tables/hash.rs + tables/block.rs read: key statements (E11 blocks) equal the published table keys"
+// @harness unit=U02.3 props=C02,C01 kind=complete timeout=300 target="builder.rs write_hash_table/write_block_table, tables/hash.rs + tables/block.rs read: key statements (E11 blocks) equal the published table keys" oracle=mpq_interop
 #[kani::proof]
 #[kani::unwind(16)]
 #[kani::stub(alloc::fmt::format, stub_format)]
@@ -371,7 +371,7 @@ fn u02_3_table_keys_are_the_published_ones() {
     assert!(blk_key_reader_block() == 0xEC83_B3A3, "reader decrypts the block table with the published key");
 }
 
-// @harness unit=U02.3 props=C02,C01 kind=complete timeout=600 target="archive.rs: read_file key computation (E11 block): published formula, all positions/sizes/flags (name fixed: its hash is U04)"
+// @harness unit=U02.3 props=C02,C01 kind=complete timeout=600 target="archive.rs: read_file key computation (E11 block): published formula, all positions/sizes/flags (name fixed: its hash is U04)" oracle=mpq_interop
 #[kani::proof]
 #[kani::unwind(8)]
 #[kani::stub(alloc::fmt::format, stub_format)]
